@@ -266,7 +266,7 @@ def rule_limits(ctx):
                 from .sym import sufficient_cmps as _suff
                 # an exit whose condition the rule cannot read matters only if that condition mentions the limit at all
                 base_name = name.split("(")[0].strip()
-                opaque = [e for e in evs if e.guards and not any(_suff(g[3], g[0] == "+") for g in e.guards) and any(base_name in g[1] for g in e.guards)]
+                opaque = [e for e in evs if e.guards and any(base_name in g[1] for g in e.guards)]
                 res.violate("%s : limit-missing:%s" % (key, name), "no early exit guarded by the %s test before the split is created (expected: %s)%s" % (name, what, "; %d exit(s) have conditions this rule cannot read" % len(opaque) if opaque else ""), fn_loc(fn), undecided=bool(opaque))
     return res.finish(7)
 
